@@ -128,29 +128,26 @@ class BaseNetref(with_metaclass(NetrefMetaclass, object)):
             pass
 
     def __getattribute__(self, name):
+        # NOTE: there is deliberately no __getattr__ on netrefs.  Python calls __getattr__ whenever __getattribute__
+        # raises AttributeError; a __getattr__ that forwards would evaluate a FAILING attribute read a second time
+        # on the remote object (a property or __getattr__ with side effects would run twice)
         if name in LOCAL_ATTRS:
             if name == "__class__":
                 cls = object.__getattribute__(self, "__class__")
                 if cls is None:
-                    cls = self.__getattr__("__class__")
+                    cls = syncreq(self, consts.HANDLE_GETATTR, "__class__")
                 return cls
             elif name == "__doc__":
-                return self.__getattr__("__doc__")
+                return syncreq(self, consts.HANDLE_GETATTR, "__doc__")
             elif name in DELETED_ATTRS:
                 raise AttributeError()
-            else:
-                return object.__getattribute__(self, name)
-        elif name == "__call__":                          # IronPython issue #10
-            return object.__getattribute__(self, "__call__")
-        elif name == "__array__":
-            return object.__getattribute__(self, "__array__")
-        else:
+        elif name != "__call__" and name != "__array__":   # IronPython issue #10
             return syncreq(self, consts.HANDLE_GETATTR, name)
-
-    def __getattr__(self, name):
-        if name in DELETED_ATTRS:
-            raise AttributeError()
-        return syncreq(self, consts.HANDLE_GETATTR, name)
+        # a name the netref (class) may hold itself; if it does not, the remote object is asked - once
+        try:
+            return object.__getattribute__(self, name)
+        except AttributeError:
+            return syncreq(self, consts.HANDLE_GETATTR, name)
 
     def __delattr__(self, name):
         if name in LOCAL_ATTRS:
